@@ -1,4 +1,5 @@
 use crate::{
+    format::utf16_len,
     location_utils::uri_is_project_file,
     lsp_runtime_error::{LSPRuntimeError, LSPRuntimeResult},
     lsp_state::LspState,
@@ -136,7 +137,8 @@ fn absolutize_relative_token<'a>(
                 absolute_char_start: iso_literal_extraction_span.start
                     + relative_token.location.span.start
                     + *iterated_so_far_within_token,
-                len: line_text.len() as u32,
+                // LSP tokens cannot span multiple lines, so the line break is not part of the token
+                len: utf16_len(line_text.trim_end_matches('\n')),
                 semantic_token: relative_token.item,
             };
             *iterated_so_far_within_token += line_text.len() as u32;
@@ -171,14 +173,14 @@ fn convert_absolute_token_to_lsp_token<'a>(
 pub fn delta_line_delta_start(text: &str) -> (u32, u32) {
     let mut last_line_break_index = 0;
     let mut line_break_count = 0;
-    for (index, char) in text.chars().enumerate() {
+    for (index, char) in text.char_indices() {
         if char == '\n' {
             line_break_count += 1;
-            last_line_break_index = index as u32 + 1;
+            last_line_break_index = index + 1;
         }
     }
 
-    (line_break_count, text.len() as u32 - last_line_break_index)
+    (line_break_count, utf16_len(&text[last_line_break_index..]))
 }
 
 /// The conversion of `get_semantic_tokens` without the database: parsed literals + page content
